@@ -99,6 +99,8 @@ FAULT SCRIPT (--script file, or POST /_emu/script): a JSON list of rules
                     "Injected fault.").
     "badjson"       perform the request (unless "apply": false), answer 2xx ("status", default the
                     normal one or 200) with Content-Type application/json and a malformed body.
+    "nofield"       perform the request (unless "apply": false) and answer 2xx with a well-formed JSON object that
+                    lacks every field the client needs: `{}`.
     "noheader"      perform the request (unless "apply": false), answer normally but without the
                     Content-Type header; for Google session-start: without the Location header.
     "reset-before"  close the connection without reading the body and without sending anything.
@@ -551,7 +553,7 @@ def flip_byte(data, offset=None):
 # Fault rules
 # ---------------------------------------------------------------------------------------------
 
-FAULT_KINDS = ("status", "text", "badjson", "noheader", "reset-before", "reset-inside", "corrupt",
+FAULT_KINDS = ("status", "text", "badjson", "nofield", "noheader", "reset-before", "reset-inside", "corrupt",
                "rename-fail", "delay")
 
 
@@ -806,7 +808,7 @@ class Emulator:
             return self.shaped_error(req, status, spec.get("error"))
 
         apply = bool(spec.get("apply", True))
-        if kind in ("badjson", "noheader") and not apply:
+        if kind in ("badjson", "noheader", "nofield") and not apply:
             response = json_response("oauth", 200, {})
         else:
             with self.lock:
@@ -826,6 +828,12 @@ class Emulator:
             headers = {k: v for k, v in response.headers.items() if k.lower() != "content-type"}
             headers["Content-Type"] = JSON_TYPES[shape]
             response = Response(status, headers, b'{"emulated": "malformed json", ')
+        elif kind == "nofield":
+            status = int(spec.get("status", response.status if 200 <= response.status < 300 and response.status != 204 else 200))
+            shape = "oauth" if req.area == "oauth" else (req.provider or "oauth")
+            headers = {k: v for k, v in response.headers.items() if k.lower() != "content-type"}
+            headers["Content-Type"] = JSON_TYPES[shape]
+            response = Response(status, headers, b'{}')
         elif kind == "noheader":
             drop = "location" if req.endpoint == "session-start" else "content-type"
             response.headers = {k: v for k, v in response.headers.items() if k.lower() != drop}
